@@ -352,6 +352,36 @@ func randHistory(r *rand.Rand, maxN, length, handles int) []EAct {
 	return hist
 }
 
+// randHistoryLarge: a short history on a graph with 33..70 vertices (sizes beyond fixed small buffers; vertices whose degree is many
+// times the length of a short, unsorted InducedSubgraph list).
+func randHistoryLarge(r *rand.Rand) []EAct {
+	n := 33 + r.Intn(38)
+	ranks := []int{}
+	for e := 0; e < n*(n-1)/2; e++ {
+		if r.Float64() < 0.5 {
+			ranks = append(ranks, e)
+		}
+	}
+	hist := []EAct{{Op: "Create", H: 1, N: n, E: ranks}}
+	for len(hist) < 14 {
+		switch r.Intn(7) {
+		case 0, 1:
+			hist = append(hist, EAct{Op: "RemoveVertex", H: 1, Vx: r.Intn(n)})
+			n--
+		case 2, 3:
+			hist = append(hist, EAct{Op: "AddVertex", H: 1, Nb: r.Perm(n)[:r.Intn(6)]})
+			n++
+		case 4:
+			hist = append(hist, EAct{Op: "AddEdge", H: 1, I: r.Intn(n), J: r.Intn(n)})
+		case 5:
+			hist = append(hist, EAct{Op: "RemoveEdge", H: 1, I: r.Intn(n), J: r.Intn(n)})
+		default:
+			hist = append(hist, EAct{Op: "Induced", H: 1, H2: 2, V: r.Perm(n)[:1+r.Intn(3)]})
+		}
+	}
+	return hist
+}
+
 func driveC05(c *Ctx) {
 	set := tr.NewSet(c.Out, "trace", c.Shards)
 	meta := map[string]interface{}{}
@@ -406,6 +436,18 @@ func driveC05(c *Ctx) {
 			runHistoryB(w, rep, hist)
 		}
 	}
+	nl := 12
+	if c.Thorough() {
+		nl = 60
+	}
+	for i := 0; i < nl; i++ {
+		hist := randHistoryLarge(r)
+		for _, rep := range []string{"dense", "sparse"} {
+			w := set.Begin(histKey(rep, hist), tr.E{"rep": rep, "input": map[string]interface{}{"rep": rep, "hist": hist}})
+			runHistoryB(w, rep, hist)
+		}
+	}
+	meta["B_large_histories"] = nl
 	meta["B_histories"] = nh
 	meta["B_nontrivial_histories"] = nontrivial
 	meta["B_sample"] = sample
